@@ -199,6 +199,22 @@ Theorem C16_hier_marker_sound : forall H U,
         h_dec shape_src H U (S k) (TRef c) (JMap [(nm, inner)]) = VFault).
 Proof. exact hier_sound_main. Qed.
 
+(** ProtocolMixin.get_polymorphic_target, regenerated from the normalised source (locals substituted,
+    log calls dropped, early returns and if/else identified), is the decision the model uses ... *)
+Theorem C16_gpt_src : forall poly same_cls is_inst map_none,
+  gpt_src poly same_cls is_inst map_none = gpt_decide poly same_cls is_inst map_none.
+Proof. intros [|] [|] [|] [|]; reflexivity. Qed.
+
+(** ... with the default (empty) polymap *)
+Theorem C16_gpt_model : forall poly U c d,
+  poly_target shape_src poly U c d
+  = match gpt_decide poly (Nat.eqb d c) (is_subclass U d c) true with
+    | GDecl => (c, false)
+    | GInst => (d, true)
+    | GMap => (d, true)
+    end.
+Proof. exact poly_target_decide. Qed.
+
 (** XmlDocument._get_xsi_target, regenerated from the source as a decision over five facts about
     the declared and the registered class, is the decision the model uses ... *)
 Theorem C16_xsi_target_src : forall same_orig sup_array same_key sup_complex sub_of,
